@@ -198,6 +198,9 @@ impl OutputFormat for XBin {
         let is_compressed = (flags & FLAG_COMPRESS) == FLAG_COMPRESS;
         let use_ice = (flags & FLAG_NON_BLINK_MODE) == FLAG_NON_BLINK_MODE;
         let extended_char_mode = (flags & FLAG_512CHAR_MODE) == FLAG_512CHAR_MODE;
+        if extended_char_mode && !has_custom_font {
+            return Err(anyhow::anyhow!("Invalid XBin. 512 character mode needs a font."));
+        }
 
         result.font_mode = if extended_char_mode { FontMode::FixedSize } else { FontMode::Single };
         result.palette_mode = if extended_char_mode { PaletteMode::Free8 } else { PaletteMode::Free16 };
